@@ -6,11 +6,10 @@ import (
 	"bufio"
 	"encoding/json"
 	"fmt"
-	"io"
 	"os"
 	"os/exec"
-	"path/filepath"
 	"regexp"
+	"sort"
 	"strings"
 	"time"
 )
@@ -34,11 +33,11 @@ func runJobs(bin string, dir string, jobs []job, env []string) []jobOutcome {
 	}
 	next := 0
 	for round := 0; next < len(jobs); round++ {
-		errPath := filepath.Join(dir, fmt.Sprintf("worker-%d-%d.stderr", os.Getpid(), round))
-		errFile, err := os.Create(errPath)
+		errFile, err := os.CreateTemp(dir, "worker-*.stderr")
 		if err != nil {
 			panic(err)
 		}
+		errPath := errFile.Name()
 		pr, pw, _ := os.Pipe()
 		cmd := exec.Command(bin, "C17W", "--out", dir)
 		cmd.Env = append(os.Environ(), env...)
@@ -149,9 +148,17 @@ func attribute(text string, jobs []job, index map[int]int, out []jobOutcome) {
 	}
 }
 
+var chanRaceRx = regexp.MustCompile(`(?m)^(Read|Write|Previous read|Previous write) at \S+ by [^\n]*\n  runtime\.(chansend|closechan|chanrecv)\(\)`)
+
+// splitRaces returns the race reports of a stderr segment.  A close of a channel that races with a send or
+// a receive on it is a race of the generated PROGRAM (the model covers it: push on a closed channel), which
+// the detector reports with runtime.closechan / chansend on top of both stacks: not an interpreter race.
 func splitRaces(seg string) (reps []string) {
 	for _, blk := range strings.Split(seg, "==================") {
 		if strings.Contains(blk, "WARNING: DATA RACE") {
+			if len(chanRaceRx.FindAllString(blk, -1)) >= 2 {
+				continue
+			}
 			reps = append(reps, strings.TrimSpace(blk))
 		}
 	}
@@ -167,40 +174,31 @@ func crashLine(stderr string) string {
 	return ""
 }
 
-var frameRx = regexp.MustCompile(`(?m)^\s+(\S+\.go):(\d+)`)
-var funcRx = regexp.MustCompile(`(?m)^  (\S+)\(`)
+var accessRx = regexp.MustCompile(`(?m)^(Read|Write|Previous read|Previous write|Atomic read|Atomic write|Previous atomic read|Previous atomic write) at .*$`)
 
 // raceSignature: the innermost function of the slip repository in each of the two access stacks, sorted.
 func raceSignature(rep string) string {
-	parts := regexp.MustCompile(`(?m)^(Read|Write|Previous read|Previous write|Atomic read|Atomic write|Previous atomic read|Previous atomic write) at .*$`).Split(rep, -1)
+	parts := accessRx.Split(rep, -1)
 	var sig []string
 	for _, part := range parts[1:] {
-		// stop at the goroutine creation section
-		if i := strings.Index(part, "\nGoroutine "); i >= 0 {
+		if i := strings.Index(part, "\nGoroutine "); i >= 0 { // stop at the goroutine creation section
+			part = part[:i]
+		}
+		if i := strings.Index(part, "\n\n"); i >= 0 { // one stack only
 			part = part[:i]
 		}
 		lines := strings.Split(part, "\n")
-		found := ""
+		found := "?"
 		for n := 0; n+1 < len(lines); n++ {
 			fn := strings.TrimSpace(lines[n])
 			loc := strings.TrimSpace(lines[n+1])
 			if strings.HasSuffix(fn, ")") && strings.Contains(loc, ".go:") && strings.Contains(fn, "github.com/ohler55/slip") {
-				if p := strings.Index(fn, "("); p > 0 && !strings.HasPrefix(fn, "(") {
-					// keep receiver types such as slip.(*Scope).set
-				}
 				found = strings.TrimSuffix(strings.TrimPrefix(fn, "github.com/ohler55/"), "()")
 				break
 			}
 		}
-		if found == "" {
-			found = "?"
-		}
 		sig = append(sig, found)
 	}
-	if len(sig) == 2 && sig[1] < sig[0] {
-		sig[0], sig[1] = sig[1], sig[0]
-	}
+	sort.Strings(sig)
 	return strings.Join(sig, " <-> ")
 }
-
-var _ = io.EOF
